@@ -36,9 +36,15 @@ fn main() {
     let mut out: Vec<Violation> = Vec::new();
     let (mut systems, mut perms, mut renums, mut compared) = (0usize, 0usize, 0usize, 0usize);
     for i in 0..n {
-        let mut sys = match i % 3 {
+        let mut sys = match i % 4 {
             0 => gen_planted(&mut rng, 8, 1e-3, &SHAPES),
             1 => gen_linear(&mut rng, 5, 8),
+            // geometry pinned where several requests are degenerate (their evaluation returns early):
+            // the solution is unique, so the outcome must not depend on the order, and the row
+            // bookkeeping of the degenerate branches is exercised.  (Guesses collapsed onto a singular
+            // point are NOT used here: from a bifurcation point rounding noise legitimately picks the
+            // branch, and the property quantifies over planted-solution and linear systems.)
+            2 => gen_pinned_degenerate(&mut rng),
             _ => gen_planted(&mut rng, 5, 1e-2, &SHAPES),
         };
         if i % 4 == 3 {
